@@ -204,6 +204,42 @@ class Module:
                     self.consts[scope][st.targets[0].value.id] = d
                 except consteval.NotConstant:
                     self.consts[scope].pop(st.targets[0].value.id, None)
+            elif isinstance(st, ast.Expr) and isinstance(st.value, ast.Call) and isinstance(st.value.func, ast.Attribute) \
+                    and isinstance(st.value.func.value, ast.Name) and st.value.func.value.id in self.consts.get(scope, {}):
+                # TABLE.update(...) / .append(...) / .extend(...) / .add(...) right after the table was built: the table is what
+                # it is after these statements -- evaluated when the argument is computed from literals, otherwise the name is
+                # not a constant of the model
+                from . import consteval
+                nm, meth, c = st.value.func.value.id, st.value.func.attr, st.value
+                cur = self.consts[scope][nm]
+                try:
+                    if c.keywords and not (meth == 'update' and isinstance(cur, dict) and all(k.arg for k in c.keywords)):
+                        raise consteval.NotConstant('keywords')
+                    args = [consteval.evaluate(a, self._const_lookup(scope)) for a in c.args]
+                    if meth == 'update' and isinstance(cur, dict) and len(args) <= 1:
+                        d = dict(cur)
+                        d.update(*[dict(a) if not isinstance(a, dict) else a for a in args])
+                        d.update({k.arg: consteval.evaluate(k.value, self._const_lookup(scope)) for k in c.keywords})
+                        self.consts[scope][nm] = d
+                    elif meth == 'append' and isinstance(cur, list) and len(args) == 1:
+                        self.consts[scope][nm] = cur + [args[0]]
+                    elif meth == 'extend' and isinstance(cur, list) and len(args) == 1:
+                        self.consts[scope][nm] = cur + list(args[0])
+                    elif meth == 'add' and isinstance(cur, (set, frozenset)) and len(args) == 1:
+                        self.consts[scope][nm] = type(cur)(set(cur) | {args[0]})
+                    elif meth == 'update' and isinstance(cur, (set, frozenset)) and len(args) == 1:
+                        self.consts[scope][nm] = type(cur)(set(cur) | set(args[0]))
+                    elif isinstance(cur, (dict, list, set)):
+                        raise consteval.NotConstant(meth)       # some other method of a mutable table: not modelled
+                except (consteval.NotConstant, TypeError, ValueError):
+                    self.consts[scope].pop(nm, None)
+            elif isinstance(st, (ast.AugAssign, ast.Delete)):
+                for t_ in ([st.target] if isinstance(st, ast.AugAssign) else st.targets):
+                    b_ = t_
+                    while isinstance(b_, (ast.Subscript, ast.Attribute)):
+                        b_ = b_.value
+                    if isinstance(b_, ast.Name):
+                        self.consts.get(scope, {}).pop(b_.id, None)
             elif isinstance(st, ast.ClassDef) and scope == '':
                 self._scan_consts(st.body, st.name)
             elif isinstance(st, (ast.If, ast.Try)):
